@@ -128,15 +128,19 @@ PROPS = {
     "C11": {
         "test": "TestC11",
         "level": "exploration",
-        "world": "B: issuer node with two did:web issuers (SQL seam) and a verifier node, real issuer / status-list / verifier code over the simulated HTTP transport",
-        "rule": "each run: 2-4 phases of 2-4 concurrent tasks issuing credentials with status-list entries, revoking, fetching the served lists and verifying on "
+        "world": "B: issuer node with two did:web issuers (SQL seam) and a verifier node, real issuer / status-list / verifier code over the simulated HTTP transport; "
+                 "one run in four: one real did:nuts node (network, DAG, notifier, VDR, VCR ambassador, verifier, revocation store) with the workload playing two issuers and an attacker on the network",
+        "rule": "network world (1 run in 4): 5-12 operations out of issue (signed JSON-LD credential in a transaction), revoke by the issuer, revocation published before its credential "
+                "(parallel DAG branches), forged revocation (another member as issuer; issuer named but foreign key; issuer's key id with a forged signature; the other honest issuer; "
+                "own namespace with the victim's uuid; subject or issuer rewritten after signing), node restart; after each operation every published credential is verified on the node. "
+                "Status-list world: each run: 2-4 phases of 2-4 concurrent tasks issuing credentials with status-list entries, revoking, fetching the served lists and verifying on "
                 "the other node; between phases the clock jumps (16 min cache age, 19 h re-issue margin, 25 h expiry) or the issuer becomes unreachable; one third of "
                 "the runs start a few slots before the page end, one third inject HTTP faults on list download. Non-trivial: more than two credentials and at least "
                 "one non-FIFO decision or fault; distinct = distinct decision hashes.",
-        "invariants": ["C11.unique-slot", "C11.served", "C11.effective", "C11.issuer-only"],
-        "assumptions": ["did:web issuers with StatusList2021 only in this check; did:nuts network revocations are not driven here",
+        "invariants": ["C11.unique-slot", "C11.served", "C11.effective", "C11.issuer-only", "C11.permanent"],
+        "assumptions": ["network revocations: the honest issuers and the attacker are played by the workload with its own keys (the node under test is the verifier); a revocation back-dated to a time at which a since-removed key was valid is not generated",
                         "SQLite only: with one connection issuance transactions serialise; interleavings are at transaction boundaries"],
-        "probes_expected": ["page-rolled-over", "http.issuer-unreachable"],
+        "probes_expected": ["page-rolled-over", "http.issuer-unreachable", "forged-network-revocation", "network-revocation-before-credential", "network-revocation-by-issuer"],
         "quick": {"budget_s": 90, "chunk": 10},
         "thorough": {"budget_s": 1200, "chunk": 10, "minimise_s": 180},
     },
